@@ -97,7 +97,7 @@ def run(ctx: Ctx) -> int:
         "TypeEnum, OnCompletion, Sender, combined with GroupIndex / GroupSize checks, in one block, across blocks and in a subroutine; all 16 slots' fields, the group size "
         "and the own index are solver variables; every non-default gtxn_context(i) / absolute_context(i) / relative_context(k) of every block on an accepting path is "
         "validated; K: index classification and key matching for symbolic indices and offsets",
-        [GH._get_index, GH.get_index_and_field, KH.is_value_matches_key, KH.get_relative_index_key, KH.get_ind_base_for_gtxn_type_keys, D._update_gtxn_constraints],
+        [lambda: GH._get_index, lambda: GH.get_index_and_field, lambda: KH.is_value_matches_key, lambda: KH.get_relative_index_key, lambda: KH.get_ind_base_for_gtxn_type_keys, lambda: D._update_gtxn_constraints],
         {"unroll": 2, "call_depth": 3, "slots": 16},
         ["well-formed transactions in every slot", "'empty when i is impossible' is read against tealer's own listed group indices"],
     )
